@@ -8,27 +8,13 @@ CLAIMED = {
                     "all() of the empty sequence true, for every boolean sequence up to 4 elements. Indexing, map-each, "
                     "flattening, element-wise logic and truncation are NOT covered (LhsValue containers in compiled closures)."},
     "C07": {"design_ref": "5/C07", "technique": T,
-            "text": "Solver-decided token tables (every alias maps to its operator, both aliases of a pair to the same one, "
-                    "exactly the alias consumed, for all short ASCII inputs) and the C-API hash writer's independence from "
-                    "how the JSON bytes are chunked. Whitespace independence, the JSON documents and flattening are NOT covered."},
+            "text": "Solver-decided for the C-API hash writer only: it forwards exactly the bytes written, in order, whatever the chunking (so the hash depends only on the JSON bytes), and one FNV step separates different bytes. The alias tables, whitespace independence, the JSON documents and flattening are NOT covered (lexer/AST/serde code is out of CBMC's reach here) - this is a thin claim."},
     "C12": {"design_ref": "5/C12", "technique": T,
-            "text": "Solver-decided one-step kernels: the walk of every node kind visits exactly its children, in order, "
-                    "through the right visitor method (a dropped child or a skipped argument is caught). The composition of "
-                    "steps over whole trees and name resolution are NOT covered."},
+            "text": 'Solver-decided one-step kernels: the walk of every node kind visits exactly its children, in order, through the right visitor method (a dropped child or a skipped argument is caught). The real visitors on a node are a thorough-tier attempt (undecided). The composition over whole trees and name resolution are NOT covered.'},
     "C01": {"design_ref": "5/C01", "technique": T,
-            "text": "Solver-decided for ALL values within the bounds: the closures the real compile function builds for every "
-                    "ordering operator on Int (all i64 pairs), Ip (all address pairs, mixed families) and Bytes (value <= 3 "
-                    "bytes vs literal <= 2), the bitwise-and test and the bare boolean, together with the default chosen for an "
-                    "absent left side (false, != = nil-not-equal setting) - reached by executing "
-                    "ComparisonExpr::compile_with_compiler with its continuation IndexExpr::compile_with stubbed; the real "
-                    "plain-field closure of IndexExpr::compile_with on a real context (absent => default); the operator "
-                    "tables and the derived precedence order. Parser precedence on whole expressions and the execution of "
-                    "composed not/and/or/xor closures are NOT covered (out of CBMC's reach, DESIGN 3.2)."},
+            "text": 'Solver-decided for ALL values within the bounds: the comparators the real compile function builds for every ordering operator on Int (all i64 pairs), Ip (all address pairs, mixed families) and Bytes (value <= 3 bytes vs literal <= 2), the bitwise-and test and the bare boolean, together with the default it selects for an absent left side (false, != = nil-not-equal setting) - reached by executing ComparisonExpr::compile_with_compiler with its continuation IndexExpr::compile_with stubbed; the operator tables and the derived precedence order. NOT covered: that the compiled closure yields that default for an absent value (attempted, undecided), parser precedence on whole expressions, execution of composed not/and/or/xor closures.'},
     "C03": {"design_ref": "5/C03", "technique": T,
-            "text": "Solver-decided kernels: every accessor of the per-call FunctionDefinitionContext reaches the same stored "
-                    "object (found a genuine defect); ExactSizeChain order and exact length; the real "
-                    "SimpleFunctionDefinition::compile closure gives omitted optional parameters their own defaults in order, "
-                    "for all default and argument values. Argument compilation, map-each application and concat are NOT covered."},
+            "text": 'Solver-decided kernels: every accessor of the per-call FunctionDefinitionContext reaches the same stored object (found a genuine defect); ExactSizeChain order and exact length. The default-substitution closure of SimpleFunctionDefinition::compile is a thorough-tier attempt (undecided so far). Argument compilation, map-each application and concat are NOT covered.'},
     "C04": {"design_ref": "5/C04", "technique": T,
             "text": "Solver-decided parameter-typing kernel: check_param / expect_val_type / kind checks agree with the "
                     "documented rule for every (declared type, actual type, kind, constant-vs-variable) over an 8-type pool "
@@ -46,11 +32,7 @@ CLAIMED = {
                     "0 <= n <= 2^32-1, an address range iff same family and ordered, CIDR bounds. Digit and address TEXT, "
                     "quoted strings as a whole and hex-pair strings are NOT covered."},
     "C09": {"design_ref": "5/C09", "technique": T,
-            "text": "Solver-decided at full machine width: the comparator the real compile function builds for `in {..}` on "
-                    "integers (range, value, range), on addresses (IPv4 CIDR + explicit IPv6 range + single address, incl. "
-                    "IPv4-mapped probes: family split and CIDR conversion) and on byte strings (two items) equals 'some listed "
-                    "item equals or contains x', absent x => false; RangeSet::from + contains for every list of 3 i64 / 3 IPv4 "
-                    "/ 2 IPv6 ranges (thorough up to 5) and every probe; the empty list. Longer lists and list TEXT are NOT covered."},
+            "text": "Solver-decided at full machine width: the comparator the real compile function builds for `in {..}` on integers (range, value, range) and on addresses (one IPv4 CIDR or one explicit IPv6 range against a probe of either family, incl. IPv4-mapped probes: family split, CIDR conversion) equals 'some listed item equals or contains x', absent x => false; RangeSet::from + contains for every list of 3 i64 / 3 IPv4 / 2 IPv6 ranges (thorough up to 5) and every probe; the empty list; the address-range lexer rule. Mixed three-item address lists and byte-string sets are thorough-tier attempts. Longer lists and list TEXT are NOT covered."},
     "C10": {"design_ref": "5/C10", "technique": T,
             "text": "Solver-decided: the engine's own `contains` arm (length dispatch over all 15 array sizes, anchor drawn "
                     "inside 1..len, empty pattern) with the SIMD bit and the random anchor made symbolic by two counted "
@@ -64,25 +46,16 @@ CLAIMED = {
                     "arms fold case only for the non-strict flavour; nested parsers keep the configured limits. Everything "
                     "about `matches` (regex) is NOT covered."},
     "C13": {"design_ref": "5/C13", "technique": T,
-            "text": "Solver-decided counter kernel: with_increased_nesting for every (depth, limit) in u16 x u16 keeps every "
-                    "setting, d-fold nesting accepted iff d <= limit for every limit (d <= 9; thorough: 300 steps across the "
-                    "255/256 boundary), default 128, setters/getters. Whether each construct's call site increments is NOT covered."},
+            "text": "Solver-decided counter kernel: with_increased_nesting for every (depth, limit) in u16 x u16 keeps every setting, d-fold nesting accepted iff d <= limit for every limit (d <= 9; thorough attempt: 300 steps across 255/256), default 128, setters/getters. Whether each construct's call site increments is NOT covered."},
     "C15": {"design_ref": "5/C15", "technique": T,
             "text": "Solver-decided packed type forms: Type <-> CompoundType round trip for every layer string up to 32 layers "
                     "and every primitive, push/pop one step from any valid state (33rd layer refused), the checked conversion "
                     "used by deserialization, injectivity up to 8 layers, and the C-side CType packing against the engine's "
                     "(one step from any state; <= 3 layers end to end). JSON forms and scheme JSON are NOT covered (serde)."},
     "C17": {"design_ref": "5/C17", "technique": T,
-            "text": "Solver-decided: `x in $name` compiled by the real InList arm returns exactly the answer of the matcher "
-                    "installed for that list, asked once with the name and the value, and false for an absent x; the built-in "
-                    "always/never matchers on every Int/Bool/Ip/Bytes value (found the AlwaysList defect), also through "
-                    "new_matcher() and after clear(); the list-name lexer on all 2-character names. Per-type list lookup at "
-                    "parse time and matcher state across serde are NOT covered."},
+            "text": 'Solver-decided: the built-in always/never matchers on every Int/Bool/Ip/Bytes value (found the AlwaysList defect), also through new_matcher() and after clear(); the list-name lexer on `$` + every two ASCII characters. The delegation of a compiled `x in $name` to the installed matcher is a thorough-tier attempt (undecided). Parse-time list lookup and matcher state across serde are NOT covered.'},
     "C20": {"design_ref": "5/C20", "technique": T,
-            "text": "Solver-decided last-error machinery: one append from ANY valid buffer state (inductive step) keeps exactly "
-                    "one terminating NUL, no interior NUL, content = old ++ buf with NUL->0x1A through both Write impls; a "
-                    "second failure replaces the message, clear gives NULL; result constants; C-side type packing. The "
-                    "wirefilter_* wrappers' equivalence with the Rust API is NOT covered."},
+            "text": 'Solver-decided last-error buffer: one append from ANY valid buffer state (inductive step) keeps exactly one terminating NUL, no interior NUL, content = old ++ buf with NUL->0x1A through both Write impls; clear / NULL-iff-empty; result constants (match panic -> panic status); C-side type packing. The wirefilter_* wrappers and the per-thread last-error replacement (thread-local: kani-compiler crash) are NOT covered.'},
 }
 
 NOT_APPLICABLE = {
